@@ -250,6 +250,67 @@ fn paren_points(s: &str) -> Vec<usize> {
     out
 }
 
+/// offsets of single ASCII spaces that separate tokens: outside strings, comments, `url(`, not next to
+/// another whitespace character (a run of whitespace is one separator already)
+fn space_points(s: &str) -> Vec<usize> {
+    let b = s.as_bytes();
+    let mut out = Vec::new();
+    let mut i = 0;
+    let mut url_depth: Option<i32> = None;
+    let mut paren = 0i32;
+    while i < b.len() {
+        match b[i] {
+            b'"' | b'\'' => {
+                let q = b[i];
+                i += 1;
+                while i < b.len() && b[i] != q {
+                    if b[i] == b'\\' {
+                        i += 1;
+                    } else if b[i] == b'#' && b.get(i + 1) == Some(&b'{') {
+                        return vec![];
+                    }
+                    i += 1;
+                }
+            }
+            b'/' if b.get(i + 1) == Some(&b'*') => {
+                i += 2;
+                while i + 1 < b.len() && !(b[i] == b'*' && b[i + 1] == b'/') {
+                    i += 1;
+                }
+                i += 1;
+            }
+            b'/' if b.get(i + 1) == Some(&b'/') => {
+                while i < b.len() && b[i] != b'\n' {
+                    i += 1;
+                }
+            }
+            b'\\' => i += 1,
+            b'(' => {
+                if url_depth.is_none() && i >= 3 && s[..i].to_ascii_lowercase().ends_with("url") {
+                    url_depth = Some(paren);
+                }
+                paren += 1;
+            }
+            b')' => {
+                paren -= 1;
+                if url_depth == Some(paren) {
+                    url_depth = None;
+                }
+            }
+            b' ' if url_depth.is_none() => {
+                let prev_ws = i > 0 && (b[i - 1] as char).is_ascii_whitespace();
+                let next_ws = b.get(i + 1).map(|c| (*c as char).is_ascii_whitespace()).unwrap_or(true);
+                if !prev_ws && !next_ws {
+                    out.push(i);
+                }
+            }
+            _ => {}
+        }
+        i += 1;
+    }
+    out
+}
+
 const SASS_ONLY: &[&str] = &[
     "$a: 1;",
     "a { b: $x; }",
@@ -561,6 +622,142 @@ pub fn run(ctx: &Ctx) {
     );
     ctx.bound(sub, "every successfully compiling SCSS corpus input (< 600 bytes): each of 5 noise strings inserted after each `{` `;` `}` at nesting-safe positions, one position at a time and at all positions", true);
     ctx.sample(sub, json!({"input": "a { // n\n b: c; }"}));
+
+    // ---- (5a) the kind of whitespace between two tokens ------------------------------------------------
+    {
+        let sub = "space-kinds";
+        // (a silent comment is not among the replacements: selectors, at-rule preludes and keyframe names keep
+        // `//` as text; inputs with escapes are left out: the space after a hex escape belongs to it)
+        let repl = ["\n", " \n", "\t", "\r\n"];
+        let inputs: Vec<&corpus::CorpusCase> = corp
+            .iter()
+            .filter(|c| c.syntax == Syn::Scss && !c.is_error && !c.compressed && c.input.len() < 300 && !c.input.contains("unique-id") && !c.input.contains("random(") && !c.input.contains("--") && !c.input.contains("@charset") && !c.input.contains('\\'))
+            .collect();
+        let cases: Vec<(usize, usize)> = inputs
+            .iter()
+            .enumerate()
+            .flat_map(|(ci, c)| {
+                let n = space_points(&c.input).len();
+                (0..n).map(move |k| (ci, k)).chain(if n > 0 { Some((ci, usize::MAX)) } else { None })
+            })
+            .collect();
+        let nr = repl.len() as u64;
+        par(
+            ctx,
+            sub,
+            cases.len() as u64 * nr,
+            |i| json!({"corpus_case": inputs[cases[(i / nr) as usize].0].name, "point": cases[(i / nr) as usize].1 as i64, "replacement": repl[(i % nr) as usize]}),
+            |i, l| {
+                let (ci, k) = cases[(i / nr) as usize];
+                let r = repl[(i % nr) as usize];
+                let c = inputs[ci];
+                let pts = space_points(&c.input);
+                let mut rewritten = String::new();
+                let mut last = 0;
+                for (n, p) in pts.iter().enumerate() {
+                    if k == usize::MAX || k == n {
+                        rewritten.push_str(&c.input[last..*p]);
+                        rewritten.push_str(r);
+                        last = *p + 1;
+                    }
+                }
+                rewritten.push_str(&c.input[last..]);
+                l.evals += 2;
+                let base = compile(&c.input, &Cfg::scss());
+                let got = compile(&rewritten, &Cfg::scss());
+                l.validated += 1;
+                l.outcome(got.digest());
+                let Outcome::Ok(b) = &base else { return };
+                l.nontrivial += 1;
+                let same = match &got {
+                    Outcome::Ok(g) => g == b || crate::models::canon::canon(g, true).ok() == crate::models::canon::canon(b, true).ok(),
+                    _ => false,
+                };
+                if !same {
+                    ctx.violation(sub, &format!("space-kind:{}:{}:{}:{:?}", c.file, c.name, if k == usize::MAX { "all".to_string() } else { k.to_string() }, r), "replacing a space between two tokens by other whitespace changes the result", json!({"input": c.input, "rewritten": rewritten, "original_result": base.brief(), "rewritten_result": got.brief()}));
+                }
+            },
+        );
+        ctx.bound(sub, "every compiling SCSS corpus input (< 300 bytes): each single space between two tokens (outside strings, comments, url()) replaced by a newline, space + newline, tab or CRLF, one at a time and all at once (inputs with escapes excluded)", true);
+        ctx.sample(sub, json!({"input": "a { b: 1\n-2; }", "must_equal": "a { b: 1 -2; }"}));
+    }
+
+    // ---- (5c) adjacent comment / statement lines in the indented syntax -------------------------------
+    {
+        let sub = "sass-line-adjacency";
+        // (indented line(s), SCSS twin, needs an enclosing rule)
+        let items: Vec<(&str, &str, bool)> = vec![
+            ("// s", "// s", false),
+            ("/* l */", "/* l */", false),
+            ("r\n  p: q", "r { p: q; }", false),
+            ("$v: 1", "$v: 1;", false),
+            ("d: e", "d: e;", true),
+            ("// t\n// u", "// t\n// u", false),
+            ("@debug 1", "@debug 1;", false),
+        ];
+        let ni = items.len();
+        let mut seqs: Vec<Vec<usize>> = Vec::new();
+        for a in 0..ni {
+            for b2 in 0..ni {
+                seqs.push(vec![a, b2]);
+                for c in 0..ni {
+                    seqs.push(vec![a, b2, c]);
+                }
+            }
+        }
+        let n = seqs.len() as u64 * 2;
+        par(
+            ctx,
+            sub,
+            n,
+            |i| json!({"items": seqs[(i / 2) as usize].iter().map(|k| items[*k].0).collect::<Vec<_>>(), "nested": i % 2 == 1}),
+            |i, l| {
+                let seq = &seqs[(i / 2) as usize];
+                let nested = i % 2 == 1;
+                if !nested && seq.iter().any(|k| items[*k].2) {
+                    return;
+                }
+                let (mut sass, mut scss) = (String::new(), String::new());
+                if nested {
+                    sass.push_str("x\n");
+                    scss.push_str("x {\n");
+                }
+                for k in seq {
+                    let (a, b2, _) = items[*k];
+                    for line in a.split('\n') {
+                        if nested {
+                            sass.push_str("  ");
+                        }
+                        sass.push_str(line);
+                        sass.push('\n');
+                    }
+                    scss.push_str(b2);
+                    scss.push('\n');
+                }
+                if nested {
+                    scss.push_str("}\n");
+                }
+                l.evals += 2;
+                let a = compile(&scss, &Cfg::syn(Syn::Scss));
+                let b2 = compile(&sass, &Cfg::syn(Syn::Sass));
+                l.validated += 1;
+                l.outcome(b2.digest());
+                let same = match (&a, &b2) {
+                    (Outcome::Ok(x), Outcome::Ok(y)) => {
+                        l.nontrivial += 1;
+                        x == y || crate::models::canon::canon(x, true).ok() == crate::models::canon::canon(y, true).ok()
+                    }
+                    (Outcome::Err(x), Outcome::Err(y)) => x.message == y.message,
+                    _ => false,
+                };
+                if !same {
+                    ctx.violation(sub, &format!("sass-lines:{}:{}", nested, sass.replace('\n', "|")), "the same lines in SCSS and in the indented syntax compile differently", json!({"scss": scss, "sass": sass, "scss_result": a.brief(), "sass_result": b2.brief()}));
+                }
+            },
+        );
+        ctx.bound(sub, "every sequence of 2 or 3 lines over 7 line kinds (silent comment, loud comment, two silent comments, rule, variable, declaration, @debug) at the top level and inside a rule, in the indented syntax and as SCSS", true);
+        ctx.sample(sub, json!({"sass": "// s\n/* l */\n", "scss": "// s\n/* l */\n"}));
+    }
 
     // ---- (5b) whitespace and comments inside parentheses ---------------------------------------------
     let sub = "paren-noise";
